@@ -4,6 +4,8 @@
 import MitmVerif.Lemmas.C17
 namespace MitmVerif.C17
 
+variable {org crl : Option Bytes}
+
 /-- the abstract store: what is registered under each name, and the generated certificates in creation order
     (each carries its own key `(cn, sans)`); nothing else -/
 structure Abs where
@@ -23,7 +25,8 @@ def cacheFind (cn : Option Bytes) (sans : List San) (c : List Entry) : Option En
   c.find? (fun e => decide (e.cn = cn ∧ e.sans = sans))
 
 /-- abstract get_cert: first registered potential name, else the cache, else generate + FIFO-evict -/
-def absGet (cap : Nat) (ok : Bool) (a : Abs) (cn : Option Bytes) (sans : List San) : Abs × Res :=
+def absGet (cap : Nat) (ok : Bool) (a : Abs) (cn : Option Bytes) (sans : List San)
+    (org crl : Option Bytes) : Abs × Res :=
   match firstSome a.custom (potentialNames cn sans) with
   | some e => (a, .hit e)
   | none =>
@@ -31,17 +34,17 @@ def absGet (cap : Nat) (ok : Bool) (a : Abs) (cn : Option Bytes) (sans : List Sa
     | some e => (a, .hit e)
     | none =>
       if ok then
-        ({ a with cache := if cap < (a.cache ++ [(⟨false, a.next, cn, sans⟩ : Entry)]).length
-                            then (a.cache ++ [(⟨false, a.next, cn, sans⟩ : Entry)]).tail
-                            else a.cache ++ [(⟨false, a.next, cn, sans⟩ : Entry)],
-                  next := a.next + 1 }, .fresh ⟨false, a.next, cn, sans⟩)
+        ({ a with cache := if cap < (a.cache ++ [(⟨false, a.next, cn, sans, org, crl⟩ : Entry)]).length
+                            then (a.cache ++ [(⟨false, a.next, cn, sans, org, crl⟩ : Entry)]).tail
+                            else a.cache ++ [(⟨false, a.next, cn, sans, org, crl⟩ : Entry)],
+                  next := a.next + 1 }, .fresh ⟨false, a.next, cn, sans, org, crl⟩)
       else (a, .err)
 
 def absAdd (a : Abs) (id : Nat) (cn : Option Bytes) (sans : List San) (names : List Bytes) : Abs :=
-  { a with custom := fun n => if n ∈ addKeys cn sans names then some ⟨true, id, cn, sans⟩ else a.custom n }
+  { a with custom := fun n => if n ∈ addKeys cn sans names then some ⟨true, id, cn, sans, none, none⟩ else a.custom n }
 
 def absStep (cap : Nat) (a : Abs) : Op → Abs × Option Res
-  | .get ok cn sans => let r := absGet cap ok a cn sans; (r.1, some r.2)
+  | .get ok cn sans org crl => let r := absGet cap ok a cn sans org crl; (r.1, some r.2)
   | .add id cn sans names => (absAdd a id cn sans names, none)
 
 /-- everything observable: the result of every operation of a history -/
@@ -120,7 +123,7 @@ theorem refines_step {cap : Nat} {s : Store} {a : Abs} (h : Refines cap s a) (op
     refine ⟨inv_addCert h.inv id cn sans names, ?_, h.cache, h.next⟩
     intro n
     simp only [lookup_setAll, h.names]
-  | get ok cn sans =>
+  | get ok cn sans org crl =>
     simp only [step, absStep]
     have hnm := firstHit_names h.names (potentialNames cn sans)
     have hgen := lookup_gen_eq_cacheFind h.inv cn sans
@@ -132,13 +135,13 @@ theorem refines_step {cap : Nat} {s : Store} {a : Abs} (h : Refines cap s a) (op
       cases firstSome a.custom (potentialNames cn sans) with
       | some e => rfl
       | none => simp only; cases cacheFind cn sans s.queue <;> rfl
-    have hinv' := inv_getCert h.inv ok cn sans
-    have hnames' : ∀ n, lookup (.name n) (getCert cap ok s cn sans).1.certs = a.custom n := by
+    have hinv' := inv_getCert (org := org) (crl := crl) h.inv ok cn sans
+    have hnames' : ∀ n, lookup (.name n) (getCert cap ok s cn sans org crl).1.certs = a.custom n := by
       intro n; rw [lookup_name_getCert h.inv]; exact h.names n
-    rcases getCert_cases cap ok s cn sans with ⟨e, hf, hg⟩ | ⟨hf, hok, hg⟩ | ⟨hf, hok, d, rest, hq, ⟨hlen, hg⟩ | ⟨hlen, hg⟩⟩
+    rcases getCert_cases cap ok s cn sans org crl with ⟨e, hf, hg⟩ | ⟨hf, hok, hg⟩ | ⟨hf, hok, d, rest, hq, ⟨hlen, hg⟩ | ⟨hlen, hg⟩⟩
     · -- hit
       rw [hfirst] at hf
-      have habs : absGet cap ok a cn sans = (a, .hit e) := by
+      have habs : absGet cap ok a cn sans org crl = (a, .hit e) := by
         unfold absGet
         cases h1 : firstSome a.custom (potentialNames cn sans) with
         | some e1 => simp only [h1] at hf; simp at hf; rw [hf]
@@ -147,7 +150,7 @@ theorem refines_step {cap : Nat} {s : Store} {a : Abs} (h : Refines cap s a) (op
       exact ⟨rfl, h⟩
     · -- dummy_cert raised
       rw [hfirst] at hf
-      have habs : absGet cap ok a cn sans = (a, .err) := by
+      have habs : absGet cap ok a cn sans org crl = (a, .err) := by
         unfold absGet
         cases h1 : firstSome a.custom (potentialNames cn sans) with
         | some e1 => simp [h1] at hf
@@ -156,10 +159,10 @@ theorem refines_step {cap : Nat} {s : Store} {a : Abs} (h : Refines cap s a) (op
       exact ⟨rfl, h⟩
     · -- generated, oldest evicted
       rw [hfirst] at hf
-      have hq' : a.cache ++ [(⟨false, a.next, cn, sans⟩ : Entry)] = d :: rest := by
+      have hq' : a.cache ++ [(⟨false, a.next, cn, sans, org, crl⟩ : Entry)] = d :: rest := by
         rw [h.cache, h.next]; exact hq
-      have habs : absGet cap ok a cn sans =
-          ({ a with cache := rest, next := a.next + 1 }, .fresh ⟨false, a.next, cn, sans⟩) := by
+      have habs : absGet cap ok a cn sans org crl =
+          ({ a with cache := rest, next := a.next + 1 }, .fresh ⟨false, a.next, cn, sans, org, crl⟩) := by
         unfold absGet
         cases h1 : firstSome a.custom (potentialNames cn sans) with
         | some e1 => simp [h1] at hf
@@ -172,10 +175,10 @@ theorem refines_step {cap : Nat} {s : Store} {a : Abs} (h : Refines cap s a) (op
       refine ⟨by simp [freshEntry, h.next], hinv', hnames', rfl, by simp [h.next]⟩
     · -- generated, nothing evicted
       rw [hfirst] at hf
-      have hq' : a.cache ++ [(⟨false, a.next, cn, sans⟩ : Entry)] = d :: rest := by
+      have hq' : a.cache ++ [(⟨false, a.next, cn, sans, org, crl⟩ : Entry)] = d :: rest := by
         rw [h.cache, h.next]; exact hq
-      have habs : absGet cap ok a cn sans =
-          ({ a with cache := d :: rest, next := a.next + 1 }, .fresh ⟨false, a.next, cn, sans⟩) := by
+      have habs : absGet cap ok a cn sans org crl =
+          ({ a with cache := d :: rest, next := a.next + 1 }, .fresh ⟨false, a.next, cn, sans, org, crl⟩) := by
         unfold absGet
         cases h1 : firstSome a.custom (potentialNames cn sans) with
         | some e1 => simp [h1] at hf
@@ -207,7 +210,7 @@ theorem abs_cache_le (cap : Nat) (ops : List Op) : ∀ (a : Abs), a.cache.length
     apply ih
     cases op with
     | add id cn sans names => exact h
-    | get ok cn sans =>
+    | get ok cn sans org crl =>
       simp only [absStep, absGet]
       split
       · exact h
